@@ -128,9 +128,9 @@ def store (e : Env) (t : Strings) (ty : Int) (str : List Byte) : Nat × Strings 
     else
       let text := if ty = 3 && isWriteMode e.mode then softwareText e.pkgName e.pkgVersion str else str
       let len := text.length + 1
-      let cap := if t.used + len + 1 > t.cap then max 256 (2 * t.cap + len + 1) else t.cap
+      let cap := if t.storage.length + len + 1 > t.cap then max 256 (2 * t.cap + len + 1) else t.cap
       let fl := if atEnd then SF_STR_LOCATE_END else SF_STR_LOCATE_START
-      (0, { slots := sc.1.set k ⟨ty, fl, t.used⟩, storage := t.storage ++ text ++ [0], cap := cap, flags := t.flags ||| fl })
+      (0, { slots := sc.1.set k ⟨ty, fl, t.storage.length⟩, storage := t.storage ++ text ++ [0], cap := cap, flags := t.flags ||| fl })
 
 /-- `psf_get_string`: the first slot of that type -/
 def get (t : Strings) (ty : Int) : Option (List Byte) :=
